@@ -87,7 +87,15 @@ def main():
             "checks_run": r.get("checks", {}), "caught_by": caught,
         }
         with open(os.path.join(d, "meta.json"), "w") as f: json.dump(meta, f, indent=1)
-        rows.append((mid, what.split(":")[0], ",".join(caught) if caught else ("n/a (patch no longer applies)" if r.get("applies") is False else "MISSED" if r else "not run")))
+        NOTE = {
+            "C11-m1": "neutralised by fix f8207e7 (vb->pcm is now reset at the start of vorbis_synthesis_trackonly, so the change no longer breaks anything: its own demonstration passes with it). Against the tree before that fix it was caught by C11 (track-only pre-roll experiment) and C07.",
+            "C18-m3": "the line it edits was rewritten by fix fc2e0eb (_ov_getlap), so the patch no longer applies; the defect it re-creates (lap buffer partly uninitialised) is the one that fix removed, found by C19/C13 runs on the unchanged tree.",
+        }
+        if mid in NOTE:
+            meta["note"] = NOTE[mid]
+            with open(os.path.join(d, "meta.json"), "w") as f: json.dump(meta, f, indent=1)
+        verdict = ",".join(caught) if caught else ("n/a - patch no longer applies (see meta.json)" if r.get("applies") is False else "n/a - neutralised by a later fix (see meta.json)" if r.get("demo_with_change_exit") == 0 else "MISSED" if r else "not run")
+        rows.append((mid, what.split(":")[0], verdict))
     for row in rows: print("| %s | %s | %s |" % row)
 
 main()
